@@ -483,6 +483,22 @@ func tagsOf(in Input) []string {
 	return tags
 }
 
+// traceSafe: trace logging may be switched on for this input.  Before repository commit "fix: log
+// the wallets being refreshed once ..." the wallet manager, at trace level with two or more
+// wallets, reused a zerolog event after Msg had recycled it, which corrupts zerolog's event pool
+// for the whole process (random panics in later, unrelated log calls).  That defect is not C13's
+// subject, so the harness keeps away from it.
+func traceSafe(in Input) bool {
+	if in.Manager != "wallet" {
+		return true
+	}
+	first := map[string]bool{}
+	for _, s := range in.Specs {
+		first[firstPart(s)] = true
+	}
+	return len(first) <= 1
+}
+
 func TestC13(t *testing.T) {
 	zerologger.Logger = zerologger.Output(io.Discard)
 	col := NewCollector("C13", "Check.C13",
@@ -498,7 +514,7 @@ func TestC13(t *testing.T) {
 	thorough := strings.HasPrefix(strings.ToLower(getenv("VERIF_TIER")), "thorough") || getenv("VERIF_SEARCH") != ""
 	for i := 0; i < n; i++ {
 		in := gen(rng.Fork())
-		if thorough && i%2 == 1 {
+		if thorough && i%2 == 1 && traceSafe(in) {
 			in.Trace = true
 		}
 		ins = append(ins, in)
